@@ -74,6 +74,8 @@ pub fn hist(focus: Focus) -> impl Strategy<Value = Hist> {
             2 => 0u64..31_536_000_000,
             1 => (0u64..365, 0u64..2000).prop_map(|(d, back)| d * 86_400_000 + 86_400_000 - back),
             1 => (0u64..8000, 0u64..2000).prop_map(|(h, back)| h * 3_600_000 + 3_600_000 - back),
+            // inside the minute of the pre-existing own file `….2024-01-01-00-00.…` (a restart that finds a current file)
+            1 => 0u64..60_000,
         ],
         prop::collection::vec(step(focus), 1..14),
         faults,
@@ -136,6 +138,12 @@ pub fn check(h: &Hist, which: Prop, cx: &mut Cx) -> vcore::Res {
     cx.class_if(s.equal_clock_creation, "same-millisecond-creation");
     cx.class_if(s.foreign_sibling, "foreign-sibling");
     cx.class_if(s.prefix_related_sibling, "prefix-related-sibling");
+    {
+        let own_pre = h.pre.iter().filter(|f| f.name < 3).map(|f| f.name).collect::<std::collections::BTreeSet<_>>();
+        let current = h.start_ms < 60_000 && h.cfg.roll == crate::Roll::Minute && own_pre.contains(&1);
+        cx.class_if(current, "start-inside-the-period-of-a-pre-existing-own-file");
+        cx.class_if(current && h.cfg.reuse && own_pre.len() > h.cfg.max_files as usize, "directory-over-limit-at-start/reuse-finds-a-current-file");
+    }
     cx.class_if(s.deletions > 0, "retention-deleted");
     cx.class_if(s.overflow, "sender-overflow");
     cx.class_if(s.ticking_clock, "ticking-clock");
